@@ -1,5 +1,5 @@
-From Coq Require Import NArith List Bool Lia.
-From DvcData Require Import Base.Val Model.Gc.
+From Coq Require Import NArith List Bool Lia ZifyNat ZifyN.
+From DvcData Require Import Base.Val Base.PyBase Gen.GcDecisions Model.Gc.
 Import ListNotations.
 Open Scope N_scope.
 
@@ -9,6 +9,166 @@ Proof.
   - intros [x [Hin Heq]]. apply list_N_eqb_spec in Heq. now subst.
   - intros Hin. exists o. split; [assumption | now apply list_N_eqb_spec].
 Qed.
+
+(* ============================================================================================
+   The model (Model/Gc.v: gc) is assembled from the decisions GENERATED from gc.py
+   (Gen/GcDecisions.v).  This block ties them to the flat, hand-written reading of gc() that
+   every theorem below is proved about.  All of it is recomputed against the regenerated file
+   on every run: an edit of gc() that survives the fail-closed shape check changes a generated
+   definition, and the corresponding tie lemma / gc_eq stops compiling.
+   ============================================================================================ *)
+
+(* --- tie lemmas: each generated decision is the one the flat model makes --- *)
+Lemma tie_read_only_guard ro dry sh : GcDecisions.read_only_refused ro dry sh = ro.
+Proof. reflexivity. Qed.   (* tested on odb.read_only alone: independent of dry / shallow *)
+Lemma tie_guard_first : hd_error GcDecisions.phases = Some GcDecisions.PhGuard.
+Proof. reflexivity. Qed.
+Lemma tie_phases : GcDecisions.phases =
+  [GcDecisions.PhGuard; GcDecisions.PhCacheDefault; GcDecisions.PhUsed; GcDecisions.PhIsDirHelper;
+   GcDecisions.PhScan; GcDecisions.PhRemove; GcDecisions.PhReturn].
+Proof. reflexivity. Qed.
+(* the algorithm filter compares with the COLLECTED store's hash_name, not with cache_odb's *)
+Lemma tie_used_skip name alg calg dry sh :
+  GcDecisions.used_skip name alg calg dry sh = negb (list_N_eqb name alg).
+Proof. reflexivity. Qed.
+Lemma tie_expand isdir dry sh : GcDecisions.expand isdir dry sh = isdir && negb sh.
+Proof. reflexivity. Qed.
+Lemma tie_tree_source : GcDecisions.tree_source = GcDecisions.FromCache.   (* Tree.load(cache_odb, ...) *)
+Proof. reflexivity. Qed.
+Lemma tie_scan_source : GcDecisions.scan_source = GcDecisions.ScanOdb.     (* odb.all() *)
+Proof. reflexivity. Qed.
+Lemma tie_scan_skip b dry sh : GcDecisions.scan_skip b dry sh = b.          (* oid in used_hashes => skip *)
+Proof. reflexivity. Qed.
+Lemma tie_scan_target d dry sh :
+  GcDecisions.scan_target d dry sh = if d then GcDecisions.DirPaths else GcDecisions.FilePaths.
+Proof. reflexivity. Qed.
+Lemma tie_removal_lists : GcDecisions.removal_lists = [GcDecisions.DirPaths; GcDecisions.FilePaths].
+Proof. reflexivity. Qed.
+Lemma tie_counted ne dry sh : GcDecisions.counted ne dry sh = ne.           (* counted dry or not *)
+Proof. reflexivity. Qed.
+Lemma tie_removed ne dry sh : GcDecisions.removed ne dry sh = ne && negb dry.  (* BOTH lists: not dry *)
+Proof. reflexivity. Qed.
+Lemma tie_defaults : GcDecisions.default_shallow = true /\ GcDecisions.default_dry = false.
+Proof. split; reflexivity. Qed.
+Lemma tie_dir_suffix : GcDecisions.dir_suffix = dot_dir.
+Proof. reflexivity. Qed.
+Lemma is_dir_oid_spec o : is_dir_oid o = ends_with o dot_dir.
+Proof. destruct o; reflexivity. Qed.
+Lemma is_dir_hash_spec o : GcDecisions.is_dir_hash o = is_dir_oid o.   (* scan test = HashInfo.isdir *)
+Proof. destruct o; reflexivity. Qed.
+
+(* --- the flat reading of gc() (the hand-written model of the earlier rounds) --- *)
+Fixpoint used_hashes_flat (alg : list N) (shallow : bool) (ld : oid -> load_res)
+         (used : list (list N * oid)) (acc : list oid) : N + list oid :=
+  match used with
+  | [] => inr acc
+  | (name, value) :: r =>
+      if negb (list_N_eqb name alg) then used_hashes_flat alg shallow ld r acc
+      else
+        let acc1 := value :: acc in
+        if is_dir_oid value && negb shallow then
+          match ld value with
+          | LoadOk l => used_hashes_flat alg shallow ld r (l ++ acc1)
+          | LoadMissing => inl 2
+          | LoadCorrupt => inl 3
+          end
+        else used_hashes_flat alg shallow ld r acc1
+  end.
+
+Definition gc_flat (i : gc_in) : gc_out :=
+  if g_ro i then GcErr 1 else
+  match used_hashes_flat (g_alg i) (g_shallow i) (load (g_trees i)) (g_used i) [] with
+  | inl k => GcErr k
+  | inr u =>
+      let unused := filter (fun o => negb (mem o u)) (g_store i) in
+      let kept := filter (fun o => mem o u) (g_store i) in
+      GcOk (N.of_nat (length unused)) (if g_dry i then g_store i else kept)
+  end.
+
+Lemma used_hashes_eq alg calg sh dry ld used : forall acc,
+  used_hashes alg calg sh dry ld used acc = used_hashes_flat alg sh ld used acc.
+Proof.
+  induction used as [|[name value] r IH]; intros acc; [reflexivity|].
+  cbn [used_hashes used_hashes_flat]. rewrite tie_used_skip, tie_expand.
+  destruct (negb (list_N_eqb name alg)); [apply IH|].
+  destruct (is_dir_oid value && negb sh); [|apply IH].
+  destruct (ld value); [apply IH|reflexivity|reflexivity].
+Qed.
+
+Lemma bool_eq_iff (a b : bool) : (a = true <-> b = true) -> a = b.
+Proof. destruct a, b; intros [H1 H2]; try reflexivity; [now specialize (H1 eq_refl)|now specialize (H2 eq_refl)]. Qed.
+
+Lemma filter_all_true {A} (l : list A) : filter (fun _ => true) l = l.
+Proof. induction l as [|a l IH]; cbn; [reflexivity|now rewrite IH]. Qed.
+
+Lemma filter_split_length {A} (p : A -> bool) (l : list A) :
+  (length (filter p l) + length (filter (fun x => negb (p x)) l) = length l)%nat.
+Proof. induction l as [|a l IH]; simpl; [reflexivity|]. destruct (p a); simpl; lia. Qed.
+
+Lemma count_step (l : list oid) a :
+  (if GcDecisions.nonempty l then a + N.of_nat (length l) else a) = a + N.of_nat (length l).
+Proof. destruct l; cbn [GcDecisions.nonempty PyBase.truthy_list PyBase.is_nil negb length]; [|reflexivity]. cbn. lia. Qed.
+
+Lemma in_nonempty {A} (x : A) l : In x l -> GcDecisions.nonempty l = true.
+Proof. destruct l; [intros []|reflexivity]. Qed.
+
+(* gc, assembled from the generated decisions, IS the flat function *)
+Lemma gc_eq i : gc i = gc_flat i.
+Proof.
+  unfold gc, gc_flat. rewrite tie_read_only_guard, used_hashes_eq.
+  destruct (g_ro i); [reflexivity|].
+  destruct (used_hashes_flat _ _ _ _ _) as [k|u]; [reflexivity|].
+  rewrite tie_removal_lists. cbn [map pick_paths fold_left].
+  set (unused := filter (fun o => negb (GcDecisions.scan_skip (mem o u) (g_dry i) (g_shallow i))) (g_store i)).
+  set (to_dirs := fun o : oid => match GcDecisions.scan_target (GcDecisions.is_dir_hash o) (g_dry i) (g_shallow i) with
+                                 | GcDecisions.DirPaths => true | GcDecisions.FilePaths => false end).
+  set (dirs := filter to_dirs unused). set (files := filter (fun o => negb (to_dirs o)) unused).
+  f_equal.
+  - rewrite !tie_counted, !count_step.
+    pose proof (filter_split_length to_dirs unused) as Hl. fold dirs files in Hl.
+    change (0 + N.of_nat (length dirs) + N.of_nat (length files) = N.of_nat (length unused)).
+    lia.
+  - destruct (g_dry i) eqn:Ed.
+    + etransitivity; [|apply filter_all_true]. apply filter_ext_in. intros x Hx.
+      cbn [existsb]. rewrite !tie_removed. cbn [negb]. now rewrite !andb_false_r.
+    + apply filter_ext_in. intros x Hx.
+      cbn [existsb]. rewrite !tie_removed, tie_scan_skip, orb_false_r. cbn [negb].
+      rewrite !andb_true_r. destruct (mem x u) eqn:Em; [reflexivity|]. cbn [negb andb].
+      assert (Hun : In x unused).
+      { subst unused. apply filter_In. split; [exact Hx|]. now rewrite tie_scan_skip, Em. }
+      destruct (to_dirs x) eqn:Et.
+      * assert (Hd : In x dirs) by (subst dirs; apply filter_In; split; assumption).
+        unfold to_dirs in Et. destruct (GcDecisions.scan_target _ _ _); [|discriminate].
+        cbn [paths_list_eqb pick_paths andb orb].
+        change (negb (GcDecisions.nonempty dirs || false) = false). now rewrite (in_nonempty _ _ Hd).
+      * assert (Hf : In x files) by (subst files; apply filter_In; split; [assumption|now rewrite Et]).
+        unfold to_dirs in Et. destruct (GcDecisions.scan_target _ _ _); [discriminate|].
+        cbn [paths_list_eqb pick_paths andb orb].
+        change (negb (GcDecisions.nonempty files) = false). now rewrite (in_nonempty _ _ Hf).
+Qed.
+
+(* all source decisions in one statement (Properties/C06.v: C06_generated_decisions) *)
+Lemma gc_generated_decisions :
+  (* the read-only guard is the first statement and looks at odb.read_only only (not at dry) *)
+  hd_error GcDecisions.phases = Some GcDecisions.PhGuard /\
+  (forall ro dry sh, GcDecisions.read_only_refused ro dry sh = ro) /\
+  (* the algorithm filter compares hash_info.name with the COLLECTED store's hash_name *)
+  (forall name alg calg dry sh, GcDecisions.used_skip name alg calg dry sh = negb (list_N_eqb name alg)) /\
+  (* expansion: isdir and not shallow, listings loaded from cache_odb *)
+  (forall isdir dry sh, GcDecisions.expand isdir dry sh = isdir && negb sh) /\
+  GcDecisions.tree_source = GcDecisions.FromCache /\
+  (* the scan walks the collected store, skips exactly the used ids, partitions by the .dir suffix *)
+  GcDecisions.scan_source = GcDecisions.ScanOdb /\
+  (forall b dry sh, GcDecisions.scan_skip b dry sh = b) /\
+  (forall d dry sh, GcDecisions.scan_target d dry sh = if d then GcDecisions.DirPaths else GcDecisions.FilePaths) /\
+  GcDecisions.dir_suffix = dot_dir /\
+  (* both lists are counted when non-empty, dry or not, and removed only when not dry *)
+  GcDecisions.removal_lists = [GcDecisions.DirPaths; GcDecisions.FilePaths] /\
+  (forall ne dry sh, GcDecisions.counted ne dry sh = ne) /\
+  (forall ne dry sh, GcDecisions.removed ne dry sh = ne && negb dry) /\
+  (* defaults of the keyword parameters *)
+  GcDecisions.default_shallow = true /\ GcDecisions.default_dry = false.
+Proof. repeat split. Qed.
 
 (* The specification of "used": independent of the accumulator loop. *)
 Definition Used (i : gc_in) (o : oid) : Prop :=
@@ -23,10 +183,10 @@ Definition UsedIn alg shallow ld (used : list (list N * oid)) (o : oid) : Prop :
      (shallow = false /\ is_dir_oid value = true /\ exists l, ld value = LoadOk l /\ In o l)).
 
 Lemma used_hashes_spec alg shallow ld used : forall acc u,
-  used_hashes alg shallow ld used acc = inr u ->
+  used_hashes_flat alg shallow ld used acc = inr u ->
   forall o, In o u <-> (In o acc \/ UsedIn alg shallow ld used o).
 Proof.
-  induction used as [|[name value] r IH]; intros acc u H o; cbn [used_hashes] in H.
+  induction used as [|[name value] r IH]; intros acc u H o; cbn [used_hashes_flat] in H.
   - injection H as <-. split; [auto|]. intros [Hin|[v [[] _]]]; assumption.
   - destruct (list_N_eqb name alg) eqn:En; cbn [negb] in H.
     + apply list_N_eqb_spec in En. subst name.
@@ -67,7 +227,7 @@ Proof.
 Qed.
 
 Lemma used_hashes_Used i u :
-  used_hashes (g_alg i) (g_shallow i) (load (g_trees i)) (g_used i) [] = inr u ->
+  used_hashes_flat (g_alg i) (g_shallow i) (load (g_trees i)) (g_used i) [] = inr u ->
   forall o, In o u <-> Used i o.
 Proof.
   intros H o. rewrite (used_hashes_spec _ _ _ _ _ _ H o). unfold Used, UsedIn. split.
@@ -82,16 +242,16 @@ Proof. induction l as [|a l IH]; simpl; [reflexivity|]. destruct (p a); simpl; l
 (* --- the statements of C06 --- *)
 
 Lemma gc_readonly i : g_ro i = true -> gc i = GcErr 1.
-Proof. intros H. unfold gc. now rewrite H. Qed.
+Proof. intros H. rewrite gc_eq. unfold gc_flat. now rewrite H. Qed.
 
 Lemma gc_errors i k : gc i = GcErr k ->
   (k = 1 /\ g_ro i = true) \/
   (g_ro i = false /\ g_shallow i = false /\ (k = 2 \/ k = 3)).
 Proof.
-  unfold gc. destruct (g_ro i); [intros H; injection H as <-; now left|].
+  rewrite gc_eq. unfold gc_flat. destruct (g_ro i); [intros H; injection H as <-; now left|].
   intros H. right. split; [reflexivity|].
-  destruct (used_hashes _ _ _ _ _) as [k'|u] eqn:E; [|discriminate]. injection H as ->.
-  revert E. generalize (@nil oid). induction (g_used i) as [|[name value] r IH]; intros acc E; cbn [used_hashes] in E.
+  destruct (used_hashes_flat _ _ _ _ _) as [k'|u] eqn:E; [|discriminate]. injection H as ->.
+  revert E. generalize (@nil oid). induction (g_used i) as [|[name value] r IH]; intros acc E; cbn [used_hashes_flat] in E.
   - discriminate.
   - destruct (negb (list_N_eqb name (g_alg i))); [now apply IH in E|].
     destruct (is_dir_oid value && negb (g_shallow i)) eqn:Ed; [|now apply IH in E].
@@ -107,8 +267,8 @@ Lemma gc_exact i n s' : gc i = GcOk n s' ->
     n = N.of_nat (length (filter (fun o => negb (usedb o)) (g_store i))) /\
     s' = (if g_dry i then g_store i else filter usedb (g_store i)).
 Proof.
-  unfold gc. destruct (g_ro i); [discriminate|].
-  destruct (used_hashes _ _ _ _ _) as [k|u] eqn:E; [discriminate|].
+  rewrite gc_eq. unfold gc_flat. destruct (g_ro i); [discriminate|].
+  destruct (used_hashes_flat _ _ _ _ _) as [k|u] eqn:E; [discriminate|].
   intros H. injection H as <- <-. exists (fun o => mem o u). split; [|split; reflexivity].
   intros o. rewrite mem_spec. now apply used_hashes_Used.
 Qed.
@@ -151,8 +311,8 @@ Lemma gc_dry_count i n s' n2 s2 :
         g_dry := negb (g_dry i) |} = GcOk n2 s2 ->
   n = n2.
 Proof.
-  unfold gc; cbn. destruct (g_ro i); [discriminate|].
-  destruct (used_hashes _ _ _ _ _); [discriminate|]. intros H1 H2.
+  rewrite !gc_eq. unfold gc_flat; cbn. destruct (g_ro i); [discriminate|].
+  destruct (used_hashes_flat _ _ _ _ _); [discriminate|]. intros H1 H2.
   injection H1 as <- _. injection H2 as <- _. reflexivity.
 Qed.
 
@@ -192,11 +352,11 @@ Qed.
 (* whether gc succeeds does not depend on the order either: it fails (not read-only) exactly
    when some used directory object of the store's algorithm cannot be loaded in expanding mode *)
 Lemma used_hashes_fails alg shallow ld used : forall acc,
-  (exists k, used_hashes alg shallow ld used acc = inl k) <->
+  (exists k, used_hashes_flat alg shallow ld used acc = inl k) <->
   (shallow = false /\ exists v, In (alg, v) used /\ is_dir_oid v = true /\
                                (ld v = LoadMissing \/ ld v = LoadCorrupt)).
 Proof.
-  induction used as [|[name value] r IH]; intros acc; cbn [used_hashes].
+  induction used as [|[name value] r IH]; intros acc; cbn [used_hashes_flat].
   - split; [intros [k H]; discriminate|intros [_ [v [[] _]]]].
   - destruct (list_N_eqb name alg) eqn:En; cbn [negb].
     + apply list_N_eqb_spec in En. subst name.
@@ -232,10 +392,10 @@ Definition LoadFails (i : gc_in) : Prop :=
 
 Lemma gc_ok_iff i : (exists n s', gc i = GcOk n s') <-> (g_ro i = false /\ ~ LoadFails i).
 Proof.
-  unfold gc, LoadFails. destruct (g_ro i).
+  rewrite gc_eq. unfold gc_flat, LoadFails. destruct (g_ro i).
   - split; [intros [n [s' H]]; discriminate|intros [H _]; discriminate].
   - pose proof (used_hashes_fails (g_alg i) (g_shallow i) (load (g_trees i)) (g_used i) []) as Hf.
-    destruct (used_hashes _ _ _ _ _) as [k|u].
+    destruct (used_hashes_flat _ _ _ _ _) as [k|u].
     + split; [intros [n [s' H]]; discriminate|].
       intros [_ Hn]. exfalso. apply Hn. apply Hf. now exists k.
     + split; [|intros _; eauto].
@@ -266,9 +426,9 @@ Lemma gc_store_app i s1 s2 n s' :
     gc (with_store i s1) = GcOk n1 k1 /\ gc (with_store i s2) = GcOk n2 k2 /\
     n = n1 + n2 /\ s' = k1 ++ k2.
 Proof.
-  unfold gc. cbn [with_store g_store g_alg g_ro g_used g_trees g_shallow g_dry].
+  rewrite !gc_eq. unfold gc_flat. cbn [with_store g_store g_alg g_ro g_used g_trees g_shallow g_dry].
   intros Hs. rewrite Hs. destruct (g_ro i); [discriminate|].
-  destruct (used_hashes _ _ _ _ _) as [k|u]; [discriminate|].
+  destruct (used_hashes_flat _ _ _ _ _) as [k|u]; [discriminate|].
   intros H. injection H as <- <-. do 4 eexists. split; [reflexivity|]. split; [reflexivity|].
   rewrite !filter_app, app_length. split; [lia|]. now destruct (g_dry i).
 Qed.
@@ -283,26 +443,26 @@ Definition with_cache_alg (i : gc_in) (a : option (list N)) : gc_in :=
      g_trees := g_trees i; g_cache_alg := a; g_shallow := g_shallow i; g_dry := g_dry i |}.
 
 Lemma gc_cache_alg_irrelevant i a : gc (with_cache_alg i a) = gc i.
-Proof. reflexivity. Qed.
+Proof. rewrite !gc_eq. reflexivity. Qed.
 
 (* the used ids of another algorithm than the collected store's (in particular the cache's)
    can be dropped from `used` without changing anything, error kinds included *)
 Lemma used_hashes_other_alg alg shallow ld used : forall acc,
-  used_hashes alg shallow ld (filter (fun p => list_N_eqb (fst p) alg) used) acc
-  = used_hashes alg shallow ld used acc.
+  used_hashes_flat alg shallow ld (filter (fun p => list_N_eqb (fst p) alg) used) acc
+  = used_hashes_flat alg shallow ld used acc.
 Proof.
   induction used as [|[name value] r IH]; intros acc; [reflexivity|].
   cbn [filter fst]. destruct (list_N_eqb name alg) eqn:En.
-  - cbn [used_hashes]. rewrite En. cbn [negb].
+  - cbn [used_hashes_flat]. rewrite En. cbn [negb].
     destruct (is_dir_oid value && negb shallow); [|apply IH].
     destruct (ld value); [apply IH|reflexivity|reflexivity].
-  - cbn [used_hashes]. rewrite En. cbn [negb]. apply IH.
+  - cbn [used_hashes_flat]. rewrite En. cbn [negb]. apply IH.
 Qed.
 
 Lemma gc_other_alg i :
   gc (with_used i (filter (fun p => list_N_eqb (fst p) (g_alg i)) (g_used i))) = gc i.
 Proof.
-  unfold gc. cbn [with_used g_store g_alg g_ro g_used g_trees g_shallow g_dry].
+  rewrite !gc_eq. unfold gc_flat. cbn [with_used g_store g_alg g_ro g_used g_trees g_shallow g_dry].
   now rewrite used_hashes_other_alg.
 Qed.
 
